@@ -2,7 +2,7 @@
    documented-format model (Format.enc / Format.dec) and the certified judgement layout_ok. *)
 From Coq Require Import ZArith List Bool Lia.
 Import ListNotations.
-From XO Require Import Slots Strides BufOps Types Format Check LayoutProofs.
+From XO Require Import Slots Strides BufOps Types Format Check LayoutProofs RoundTrip.
 Open Scope Z_scope.
 
 (* a view is rebuilt from (buffer, offset) only: the decoder is a function of the bytes, so any
@@ -15,6 +15,11 @@ Theorem C06_view_from_bytes_string : forall bs size img m off m' off', size < 2^
   enc TString (VStr bs size) = Some img -> sits img m off -> sits img m' off' ->
   dec TString m off = dec TString m' off'.
 Proof. intros. rewrite (dec_enc_string bs size img m off), (dec_enc_string bs size img m' off'); auto. Qed.
+(* the general statement, every type and value: two handles on bytes carrying the same image --
+   the same buffer and offset, or a copy placed anywhere else -- decode to the same (value, size) *)
+Theorem C06_view_from_bytes : forall t v img m off m' off',
+  enc t v = Some img -> len img < 2^62 -> sits img m off -> sits img m' off' -> dec t m off = dec t m' off'.
+Proof. exact placement_independent. Qed.
 (* strides of a view (read from the header or recomputed) are those of the constructor *)
 Theorem C06_strides_address : forall shape order isz idx,
   let n := length order in
@@ -30,3 +35,4 @@ Print Assumptions C06_view_from_bytes_scalar.
 Print Assumptions C06_view_from_bytes_string.
 Print Assumptions C06_strides_address.
 Print Assumptions C06_checker_sound.
+Print Assumptions C06_view_from_bytes.
